@@ -613,7 +613,7 @@ class _CompToLoop(ast.NodeTransformer):
         return out + [ast.copy_location(ast.Return(value=ast.Name(id=name, ctx=ast.Load())), node)]
 
 _PURE_METHODS = {"endswith", "startswith", "lower", "upper", "strip", "rstrip", "lstrip", "get", "isdigit", "keys", "values",
-                 "items", "fullmatch", "match", "search", "compile", "execute"}
+                 "items", "fullmatch", "match", "search", "compile", "execute", "from_json", "to_json"}
 
 
 def _pure_expr(e) -> bool:
@@ -679,6 +679,49 @@ def _search_loop(loop):
     return st.test, ret
 
 
+def _dict_fill_loop(init, loop):
+    """`X = {}` followed by `for T in IT:` whose body only stores one pure value under one pure key of X (possibly
+    chosen by an if / else with the same key, possibly after guards with `continue`): returns (X, key, value,
+    conditions), else None."""
+    if not (isinstance(init, ast.Assign) and len(init.targets) == 1 and isinstance(init.targets[0], ast.Name)
+            and isinstance(init.value, ast.Dict) and not init.value.keys):
+        return None
+    if not isinstance(loop, ast.For) or loop.orelse:
+        return None
+    x = init.targets[0].id
+    conds = []
+    body = list(loop.body)
+    while body and isinstance(body[0], ast.If) and not body[0].orelse and len(body[0].body) == 1 \
+            and isinstance(body[0].body[0], ast.Continue):
+        conds.append(ast.UnaryOp(op=ast.Not(), operand=body[0].test))
+        body = body[1:]
+
+    def store(st):
+        if isinstance(st, ast.Assign) and len(st.targets) == 1 and isinstance(st.targets[0], ast.Subscript) \
+                and isinstance(st.targets[0].value, ast.Name) and st.targets[0].value.id == x:
+            return st.targets[0].slice, st.value
+        return None
+
+    if len(body) != 1:
+        return None
+    st = body[0]
+    kv = store(st)
+    if kv is None and isinstance(st, ast.If) and len(st.body) == 1 and len(st.orelse) == 1:
+        a, b = store(st.body[0]), store(st.orelse[0])
+        if a is None or b is None or ast.unparse(a[0]) != ast.unparse(b[0]):
+            return None
+        kv = (a[0], ast.IfExp(test=st.test, body=a[1], orelse=b[1]))
+    if kv is None:
+        return None
+    key, val = kv
+    parts = [key, val, loop.iter] + conds
+    if not all(_pure_expr(p) for p in parts):
+        return None
+    if any(isinstance(n, ast.Name) and n.id == x for part in parts for n in ast.walk(part)):
+        return None
+    return x, key, val, conds
+
+
 class _LoopToComp(ast.NodeTransformer):
     """The inverse of _CompToLoop for loops nobody wrote a contract for: `X = []; for T in IT: [guards] X.append(E)`
     with pure E / guards is the list comprehension `X = [E for T in IT if guards]`, and is read as one.  Applied only
@@ -702,6 +745,14 @@ class _LoopToComp(ast.NodeTransformer):
                 out.append(ast.copy_location(ast.If(test=test, body=[ret], orelse=[]), st))
                 self.budget -= 1
                 k += 1
+                continue
+            dm = _dict_fill_loop(st, nxt) if (self.budget > 0 and nxt is not None) else None
+            if dm is not None:
+                x, key, val, conds = dm
+                comp = ast.DictComp(key=key, value=val, generators=[ast.comprehension(target=nxt.target, iter=nxt.iter, ifs=conds, is_async=0)])
+                out.append(ast.copy_location(ast.Assign(targets=[ast.Name(id=x, ctx=ast.Store())], value=comp), st))
+                self.budget -= 1
+                k += 2
                 continue
             m = _filter_map_loop(st, nxt) if (self.budget > 0 and nxt is not None) else None
             if m is not None:
